@@ -252,6 +252,10 @@ func (w WALBatch) replay(fs *fileStore) error {
 		if err != nil {
 			return err
 		}
+		if row.WALOp == OpInsert && row.cellID > fs.lastKey {
+			// never hand out this row ID again
+			fs.lastKey = row.cellID
+		}
 		if row.LSN <= node.getLastLSN() {
 			verifReplay(fs, row, false)
 			// this update has already been committed to disk
@@ -266,10 +270,6 @@ func (w WALBatch) replay(fs *fileStore) error {
 			if err != nil && !errors.Is(err, errKeyAlreadyExists) {
 				return err
 			}
-			if err := fs.incrementLastKey(); err != nil {
-				return err
-			}
-
 		case OpUpdate:
 			err = node.updateCell(row.cellID, row.val)
 			if err != nil {
